@@ -46,6 +46,27 @@ Theorem C16_gate_serves : forall f peer, admits f peer -> In CallHandle (on_acce
 Proof. exact gate_admitted_is_handled. Qed.
 Print Assumptions C16_gate_serves.
 
+(* The accept DECISION is a function of (filter, peer address) only. The guard of the accept arm is regenerated as the
+   list of conjuncts of its condition; a conjunct that is not the filter test is interpreted by an ARBITRARY function `o`
+   of the connections accepted so far and the current peer (Model/Filter.v `served`). For every such `o` and every
+   history the connection is served exactly when the filter admits the peer - so the k-th of ANY sequence of connections
+   to one listener (the same stranger again and again, strangers alternating, permitted peers in between) is judged
+   as if it were the first. *)
+Theorem C16_gate_decision : forall o hist f peer,
+  served accept_guard accept_guard_kind o hist f peer = true <-> admits f peer.
+Proof. exact gate_decision_admits. Qed.
+Print Assumptions C16_gate_decision.
+
+Theorem C16_gate_history_free : forall o o' hist hist' f peer,
+  served accept_guard accept_guard_kind o hist f peer = served accept_guard accept_guard_kind o' hist' f peer.
+Proof. exact gate_history_free. Qed.
+Print Assumptions C16_gate_history_free.
+
+Theorem C16_gate_sequence : forall o f peers hist k p, nth_error peers k = Some p ->
+  exists b, nth_error (serve_seq accept_guard accept_guard_kind o hist f peers) k = Some b /\ (b = true <-> admits f p).
+Proof. exact gate_sequence_admits. Qed.
+Print Assumptions C16_gate_sequence.
+
 (* In the generated call-site table of tcp/server.rs, session spawn (tokio::spawn/run_session), the
    TLS handshake (handle_connection inside the connection handler) and SessionTask::new are reachable
    from the accept loop only through the guarded call, and each of them has a call site. *)
